@@ -537,12 +537,21 @@ def set_rejected(rejected):
     thrown away: a failing decode is a legitimate element of a history ("failed decodes" in C13's words), and
     its outcome must be the same failure after any history"""
     del REJECTED[:]
-    for r in rejected:
-        if r.get('src') in ('operator', 'synth') and len(r['hex']) // 2 <= 6000 and \
-                bytes.fromhex(r['hex']).find(b'BUFR', 1) < 0:
-            REJECTED.append({'ref': r['ref'], 'hex': r['hex'], 'cls': '?', 'json': '[]', 'qs': [], 'key': None,
-                             'marker': False, 'nsub': 0, 'twin': None, 'rej': True,
-                             'opkind': 'wide' if r['ref'].startswith('synop') and _is_wide(r['hex']) else None})
+    keep = [r for r in rejected if r.get('src') in ('operator', 'synth') and len(r['hex']) // 2 <= 6000 and
+            bytes.fromhex(r['hex']).find(b'BUFR', 1) < 0]
+    # 'soft' rejections: the lone decode fails only because the hierarchical structure cannot be built
+    # (wiring) - e.g. marker operators while an associated field is in force. Decoded WITHOUT wiring (what the
+    # command line does by default) they are ordinary messages with values, labels and a flat rendering, and
+    # they can be encoded: they take part in the histories and in c08-each through unwired decodes
+    res = core.pmap('hist_json', [{'hex': r['hex']} for r in keep], limit=120) if keep else []
+    for r, (st, j) in zip(keep, res):
+        ent = {'ref': r['ref'], 'hex': r['hex'], 'cls': '?', 'json': '[]', 'qs': [], 'key': None,
+               'marker': False, 'nsub': 0, 'twin': None, 'rej': True,
+               'opkind': 'wide' if r['ref'].startswith('synop') and _is_wide(r['hex']) else None}
+        if st == 'ok' and j is not None:
+            ent.update({'json': j['json'], 'nsub': j['nsub'], 'key': j['key'], 'marker': j['marker'], 'soft': True,
+                        'twin': r.get('twin')})
+        REJECTED.append(ent)
 
 
 def _is_wide(hx):
@@ -601,7 +610,7 @@ def gen_plan(family, seed, msgs, tier='quick', index=None):
         group = [m] + sibs[:3]
 
         def dec(k):
-            return {'op': 'decode', 'c': 0, 'm': k, 'wire': True, 'ive': False}
+            return {'op': 'decode', 'c': 0, 'm': k, 'wire': not group[k].get('soft'), 'ive': False}
         ops = [dec(0)] + [dec(k) for k in range(1, len(group))] + [dec(0)]
         ops += [{'op': 'encode', 'c': 0, 'm': k} for k in range(len(group))]
         ops += [{'op': 'save_compiled', 'c': 0}, {'op': 'restart', 'c': 0}, {'op': 'load_compiled', 'c': 0}]
@@ -609,6 +618,8 @@ def gen_plan(family, seed, msgs, tier='quick', index=None):
         last = len(ops) - 1
         ops += [{'op': 'encode', 'c': 0, 'm': 0},
                 {'op': 'render', 'h': last, 'fmt': rng.choice(FORMATS)}]
+        # what the command line does by default: a decode without wiring through the re-loaded template
+        ops.append(dict(dec(0), wire=False))
         # a descriptor list that cannot be turned into a template, met twice in a row, then the good message
         # again: whatever the failed attempts left in the cache must not be run
         raw0 = bytes.fromhex(m['hex'])
@@ -724,10 +735,12 @@ def gen_plan(family, seed, msgs, tier='quick', index=None):
             continue
         if k in ('render', 'query', 'mdquery', 'script', 'wire', 'subset_encode') and not handles:
             k = 'decode'
-        if chosen[mi].get('rej') and k in ('encode', 'encode_bad', 'decode_bad', 'cli'):
+        if chosen[mi].get('rej') and (k in ('encode_bad', 'decode_bad', 'cli') or
+                                      (k == 'encode' and not chosen[mi].get('soft'))):
             k = rng.choice(['decode', 'decode', 'decode_info'])
         if k == 'decode':
-            op = {'op': 'decode', 'c': c, 'm': mi, 'wire': rng.random() < 0.85, 'ive': rng.random() < p_ive}
+            op = {'op': 'decode', 'c': c, 'm': mi, 'wire': rng.random() < (0.4 if chosen[mi].get('soft') else 0.85),
+                  'ive': rng.random() < p_ive}
             if not chosen[mi].get('rej'):
                 handles.append((len(ops), mi, chosen[mi]['nsub'], op['wire']))
         elif k == 'cli':
@@ -1092,7 +1105,8 @@ REFS = RefStore()
 
 
 def prepare_pool(pool):
-    return prepare_msgs([e for e in pool if 'D' not in e['cls']])
+    # softly rejected messages (decodable without wiring) come last: c08-each gives each of them its history
+    return prepare_msgs([e for e in pool if 'D' not in e['cls']]) + [dict(m) for m in REJECTED if m.get('soft')]
 
 
 def before_oracle(runs):
